@@ -89,4 +89,21 @@ PROPS["C10"] = {
     "level_note": "Trusted: Coq kernel/vm_compute; hand-written Model/Sources.v validated on explored cases; spec sem (Spec/C10.v) read as 'iterator analogue'; boxing glue.",
 }
 
+PROPS["C08"] = {
+    "corr": "Model.Classify.{thr_step,schmitt_step,deb_step} vs classify::{threshold,schmitt,debounce}::filter (outputs; final on/count via IntoGuts; counters injected through FromGuts)",
+    "rule": "Threshold/Schmitt/Debounce<i64,i64> with distinct configured on/off values: all histories over the sample positions below/equal/between/above the thresholds (threshold 5 over {4,5,6}; schmitt with low<high, low=high, low>high), debounce thresholds 0..8 over {match, mismatch}^7, injected counters MAX-3..MAX with thresholds {0,1,3,MAX-2,MAX-1,MAX}, plus seeded random runs; non-trivial = at least 3 samples and both output values occur (Check/C08.v)",
+    "trusted": ["samples are i64 / Z (total order)", "usize = 64 bit in the executed instances; the debounce theorems hold for every counter maximum"],
+    "assumptions": ["debounce: threshold <= usize::MAX (always true of a usize)", "history characterisation of the Schmitt state: low <= high, transitive total order"],
+    "level_text": "Theorems for every history and configuration: threshold on iff x >= threshold; Schmitt: starts off, off->on iff x > high, on->off iff x < low, output = configured value, for every relation of low to high (plus a history-only characterisation for low <= high); debounce: counter = min(run length, usize::MAX) and on iff threshold <= run length, from fresh and from every injected counter value, so saturation is covered.",
+    "level_note": "Trusted: Coq kernel/vm_compute; Model/Classify.v validated on explored cases.",
+}
+PROPS["C09"] = {
+    "corr": "Model.Classify.{slopes_step,peaks_step,peaks_slope_step} vs classify::slopes::Slopes::filter and both Filter impls of classify::peaks::Peaks",
+    "rule": "Slopes<f64,usize>, Peaks<f64,usize>, Peaks<Slope,usize>: all sequences over {0,1,2} up to the tier's length (all slope sequences for the slope-driven path), all sequences over {0,1,NaN,2} of length 6 (7), plus seeded random longer ones; non-trivial = both a rising/max and a falling/min class occur in the output (Check/C09.v)",
+    "trusted": ["f64 on small integers is exact; NaN is the only incomparable value"],
+    "assumptions": [],
+    "level_text": "Theorems for every sample type with any partial comparison and every history: slope = flat first, then by partial_cmp (flat if incomparable); peak output at n is max iff x[n-2] < x[n-1] > x[n], min dually, none for the first two samples; the 4x3 decision table; value-driven and slope-driven paths give identical outputs for all inputs of all lengths.",
+    "level_note": "Trusted: Coq kernel/vm_compute; Model/Classify.v validated on explored cases.",
+}
+
 NOT_YET = {}
